@@ -478,7 +478,19 @@ impl RandomProp for Rings {
                 } else {
                     ring_strategy(ty, dyadic)
                 };
-                proptest::collection::vec(ring, n).prop_map(move |mut rings| {
+                (proptest::collection::vec(ring, n), 0u8..10, any::<bool>(), any::<bool>()).prop_map(move |(mut rings, dup, dup_rev, dup_open)| {
+                    // one case in five repeats a ring right after itself (same role; possibly reversed / re-opened)
+                    if dup < 2 && how != How::Macro {
+                        let k = rings.len() - 1;
+                        let mut copy = rings[k].clone();
+                        if dup_open && copy.pts.len() > 2 && copy.pts.first() == copy.pts.last() {
+                            copy.pts.pop();
+                        }
+                        if dup_rev {
+                            copy.pts.reverse();
+                        }
+                        rings.push(copy);
+                    }
                     if domain == 1 || domain == 2 {
                         let scale = if domain == 2 { 1.0 / 1024.0 } else { 1.0 / 16.0 };
                         for r in rings.iter_mut() {
